@@ -122,7 +122,7 @@ func (n *dnet) link(src, dst uint16) chan dpacket {
 	if c, ok := n.links[k]; ok {
 		return c
 	}
-	c := make(chan dpacket, 200000)
+	c := make(chan dpacket, 2048)
 	n.links[k] = c
 	n.wg.Add(1)
 	go func() {
